@@ -371,7 +371,7 @@ class FunctionVC:
     def call_ordinal(self, I, callnode):
         return I.call_ord.get(callnode, 0) if callnode is not None else 0
 
-    def bind(self, c, args, kwargs, selfv=None):
+    def bind(self, c, args, kwargs, selfv=None, I=None):
         names = list(c.params)
         vals = ([selfv] if selfv is not None else []) + list(args)
         if len(vals) > len(names):
@@ -387,13 +387,25 @@ class FunctionVC:
             else:
                 raise Unsupported('missing argument %s for %s' % (n, c.target))
         for n in bound:
-            bound[n] = coerce(bound[n], parse_ty(c.params[n]))
+            ty = parse_ty(c.params[n])
+            v = bound[n]
+            if I is not None and ty.name == 'str' and isinstance(v, VAny):
+                # a dynamically typed argument where the callee needs a str: a str, or TypeError
+                from .interp import Raised
+                from .values import TokenSort
+                if I.decide(Val.is_str(v.t), 'arg-is-str'):
+                    v = VStr(Val.s(v.t))
+                elif I.decide(Val.is_tok(v.t), 'arg-is-token'):
+                    v = VStr(TokenSort.s(Val.t(v.t)))
+                else:
+                    raise Raised(VExc(TypeError, [VStr('expected str')]))
+            bound[n] = coerce(v, ty)
         return bound
 
     def apply_contract(self, I, c, args, kwargs, callnode=None, selfv=None):
         if I.spec_mode:
             raise Unsupported('contracted function %s called inside a spec' % c.target)
-        bound = self.bind(c, args, kwargs, selfv)
+        bound = self.bind(c, args, kwargs, selfv, I)
         k = self.call_ordinal(I, callnode)
         I.ghost.setdefault('calls', []).append((c.short, dict(bound)))
         saved_env, saved_old = I.env, I.old_env
